@@ -13,12 +13,6 @@ open Ariadne Ariadne.Gql Ariadne.ResultTypes Ariadne.Util Ariadne.Pyd Ariadne.C0
 
 /-! ### `mflat` -/
 
-theorem flatMap_congr' {α β : Type} : ∀ (l : List α) (f g : α → List β), (∀ a ∈ l, f a = g a) → l.flatMap f = l.flatMap g
-  | [], _, _, _ => rfl
-  | a :: l, f, g, h => by
-    simp only [List.flatMap_cons, h a List.mem_cons_self,
-      flatMap_congr' l f g (fun b hb => h b (List.mem_cons_of_mem _ hb))]
-
 theorem mflat_succ (env : ResultTypes.Env) (k : Nat) (cn : String) (sel : List Selection) :
     mflat env (k + 1) cn sel = sel.flatMap fun s =>
       match s with
